@@ -27,7 +27,8 @@ type HarnessSpec struct {
 	Explore   *int           `json:"explore,omitempty"`
 	ExploreT  *int           `json:"explore_thorough,omitempty"`
 	MaxFaults *int           `json:"max_faults,omitempty"`
-	Solver    string         `json:"solver,omitempty"`    // primary incremental solver (default z3-new)
+	Solver    string         `json:"solver,omitempty"` // primary incremental solver (default z3-new)
+	AbsConst  bool           `json:"abstract_const,omitempty"`
 	Precise   bool           `json:"precise,omitempty"`   // do not use the tier-1 float abstraction
 	NoReplay  bool           `json:"no_replay,omitempty"` // findings are schedule events (replayed inside gosym only)
 	Params    map[string]int `json:"params,omitempty"`
@@ -195,6 +196,7 @@ func cmdCheck(args []string) int {
 			}
 		}
 		smt.Abstract = !h.Precise
+		smt.AbstractConst = h.AbsConst
 		smt.SolverPath = "z3-new"
 		if h.Solver != "" {
 			smt.SolverPath = h.Solver
@@ -310,6 +312,7 @@ func cmdCheck(args []string) int {
 			if !reproduced && smt.Abstract && rp != nil {
 				// tier 3: re-decide the failing paths with precise floating point
 				smt.Abstract = false
+				smt.AbstractConst = false
 				popts := *opts
 				popts.AssertTimeMs = opts.AssertTimeMs * 2
 				sess, serr := smt.NewSession(popts.TimeoutMs)
@@ -345,6 +348,7 @@ func cmdCheck(args []string) int {
 					}
 				}
 				smt.Abstract = true
+				smt.AbstractConst = h.AbsConst
 			}
 			if !reproduced {
 				problems = append(problems, fmt.Sprintf("%s: counterexample at %s did not reproduce natively (encoding or stub error?): %s", h.ID, k, firstLine(lastOut)))
